@@ -24,6 +24,8 @@ pub enum Ty {
     Src,                     // R: Read + Seek
     Sink,                    // W: Write
     Bound(Box<Ty>),
+    Cursor,                  // ReaderCursor<R>: external, reached through `step`
+    Any,                     // the payload type of a bare `None`: unifies with everything
 }
 
 #[derive(Default)]
@@ -33,6 +35,8 @@ pub struct World {
     pub consts: BTreeMap<String, Ty>,
     /// translated functions: lean name -> (param types with by-mut flag, return type)
     pub fns: BTreeMap<String, FnSig>,
+    /// structs holding an external cursor: `structure S (γ : Type)`
+    pub ext_structs: std::collections::BTreeSet<String>,
 }
 
 #[derive(Clone, Debug)]
@@ -42,6 +46,10 @@ pub struct FnSig {
     pub ret: Ty,
     pub self_mut: bool,
     pub has_self: bool,
+    /// takes the external cursor's `step` as its first argument
+    pub uses_step: bool,
+    /// declared to return `Result<ret, _>`
+    pub ret_is_res: bool,
 }
 
 pub fn lean_ident(s: &str) -> String {
@@ -74,7 +82,10 @@ impl World {
             Ty::Opt(e) => format!("Option ({})", self.lean_ty(e)?),
             Ty::Res(e) => self.lean_ty(e)?,
             Ty::Unit => "Unit".into(),
+            Ty::Named(n) if self.ext_structs.contains(n) => format!("({} γ)", n),
             Ty::Named(n) => n.clone(),
+            Ty::Cursor => "γ".into(),
+            Ty::Any => "_".into(),
             Ty::Tuple(ts) => {
                 let v: R<Vec<String>> = ts.iter().map(|t| self.lean_ty(t)).collect();
                 format!("({})", v?.join(" × "))
@@ -131,6 +142,7 @@ impl World {
                     "Option" => Ty::Opt(Box::new(arg0()?)),
                     "Result" => Ty::Res(Box::new(arg0()?)),
                     "Bound" => Ty::Bound(Box::new(arg0()?)),
+                    "ReaderCursor" => Ty::Cursor,
                     "Self" => generics.get("Self").cloned().ok_or("Self outside an impl")?,
                     n if generics.contains_key(n) => generics[n].clone(),
                     n if self.structs.contains_key(n) || self.enums.contains_key(n) => Ty::Named(n.to_string()),
@@ -159,11 +171,17 @@ impl World {
                         let n = fl.ident.as_ref().ok_or("tuple struct")?.to_string();
                         fields.push((n, self.ty_of(&fl.ty, &g)?));
                     }
-                    let mut out = format!("structure {} where\n", name);
+                    let is_ext = fields.iter().any(|(_, t)| *t == Ty::Cursor);
+                    if is_ext {
+                        self.ext_structs.insert(name.to_string());
+                    }
+                    let mut out = if is_ext { format!("structure {} (γ : Type) where\n", name) } else { format!("structure {} where\n", name) };
                     for (n, t) in &fields {
                         out.push_str(&format!("  {} : {}\n", lean_ident(n), self.lean_ty(t)?));
                     }
-                    out.push_str("  deriving Repr, DecidableEq\n");
+                    if !is_ext {
+                        out.push_str("  deriving Repr, DecidableEq\n");
+                    }
                     self.structs.insert(name.to_string(), fields);
                     return Ok(out);
                 }
@@ -274,6 +292,8 @@ pub struct Ctx<'w> {
     mut_pat_binds: Vec<String>,
     /// enclosing loops, innermost last: the "finished regularly" flag of a fuel-bounded `while`
     loop_fin: Vec<Option<String>>,
+    /// the body applied the external cursor's `step` (directly or through a callee)
+    used_step: bool,
 }
 
 struct E {
@@ -326,6 +346,8 @@ impl<'w> Ctx<'w> {
                 self.widths.borrow_mut()[r] = Some(1000 + *w);
                 Ok(Ty::I(*w))
             }
+            (Ty::Any, y) => Ok(y.clone()),
+            (x, Ty::Any) => Ok(x.clone()),
             (x, y) if x == y => Ok(a.clone()),
             (Ty::Opt(x), Ty::Opt(y)) => Ok(Ty::Opt(Box::new(self.unify(x, y)?))),
             (x, y) => Err(format!("type mismatch {:?} vs {:?}", x, y)),
